@@ -479,3 +479,12 @@ func (w *World) Transaction(i int, tx Tx) ([]Result, error, interface{}, int) {
 	fresh := r.noteEmitted()
 	return rs, err, p, len(fresh)
 }
+
+// ResultOfDoc builds the Result of a call that returns (Document, error).
+func ResultOfDoc(d orda.Document, e interface{}) Result {
+	r, n := docVal(d)
+	return Result{Ret: r, IsNil: n, Err: errOf(e)}
+}
+
+// IsNilDoc tells whether a Document interface holds nothing usable.
+func IsNilDoc(d orda.Document) bool { return isNilIface(d) }
